@@ -220,6 +220,7 @@ class Builder:
         self.case = case
         self.inputs = {}        # name -> symbolic scalar (for models / replay)
         self.provided = []      # (interface, object) pairs bound in bardolph.lib.injection
+        self.pre_exec = []      # python source run by the native replay driver before the call
 
     def sym(self, kind, name):
         v = self.I.fresh(kind, name)
@@ -691,7 +692,8 @@ def verify_contract(I, c, timeout_ms=10000, only_case=None):
                 exc = None
                 result = None
                 try:
-                    call_args = [v for k_, v in args.items() if not k_.startswith('_')]
+                    pnames = {p_.arg for p_ in fn.node.args.posonlyargs + fn.node.args.args + fn.node.args.kwonlyargs}
+                    call_args = [v for k_, v in args.items() if not k_.startswith('_') or k_ in pnames]
                     I._in_body = True
                     result = I.call_func_body(fn, call_args)
                 except PyRaise as pr:
